@@ -29,6 +29,8 @@ type MachineProvider interface {
 
 	StatesList() []fsm.State
 
+	FinStatesList() []fsm.State
+
 	IsFinState(state fsm.State) bool
 }
 
@@ -123,6 +125,22 @@ func Init(machines ...MachineProvider) *FSMPool {
 				p.states[state] = machineName
 			}
 
+		}
+	}
+
+	// Third iteration, exit states which are not an entry to another machine (canceled, finished)
+	// belong to the machine they were reached in, a dump with such state must remain loadable
+	for _, machine := range machines {
+		for _, state := range machine.FinStatesList() {
+			if state == fsm.StateGlobalDone {
+				continue
+			}
+			if _, exists := allInitStatesMap[state]; exists {
+				continue
+			}
+			if _, exists := p.states[state]; !exists {
+				p.states[state] = machine.Name()
+			}
 		}
 	}
 
